@@ -13,13 +13,17 @@ ANCHORS = [("pipefunc/lazy.py", ["_LazyFunction", "construct_dag", "evaluate_laz
            ("pipefunc/_pipeline/_base.py", ["Pipeline.run", "Pipeline._run", "Pipeline._get_func_args",
                                             "_update_all_results", "_execute_func", "Pipeline._current_cache"]),
            ("pipefunc/_pipefunc.py", ["PipeFunc.__call__", "PipeFunc._evaluate_lazy", "PipeFunc.output_picker",
-                                      "_default_output_picker"])]
+                                      "_default_output_picker"]),
+           ("pipefunc/_pipeline/_cache.py", ["compute_cache_key", "get_result_from_cache", "update_cache", "create_cache"])]
 RULE = ("the pipelines of C02 (diamonds, tuple-output nodes, shared parameters, defaults, bound values, renames) built "
         "with lazy=True x every output x every arg combination + random cuts / surplus / missing keywords x "
         "full_output x with/without construct_dag(); observed: call log before evaluate, value and log after one "
-        "and after two evaluate_lazy calls, task graph (nodes relabelled in allocation order); non-trivial = "
+        "and after two evaluate_lazy calls, task graph (nodes relabelled in allocation order) + functions / tuple "
+        "members returning None and diamonds over them + SEQUENCES of 2-3 requests to one lazy pipeline object "
+        "(inside one construct_dag() block, or outside with cache=True functions; same / changed root values, "
+        "surplus / missing keywords, evaluation in between); non-trivial = "
         ">= 2 needed functions or a tuple output; distinct by (pipeline, output, keywords, flags)")
-ASSUMPTIONS = list(c02.ASSUMPTIONS) + ["one run per construct_dag() context (its SimpleCache is fresh and never hits)"]
+ASSUMPTIONS = list(c02.ASSUMPTIONS) + ["LRU cache of a lazy pipeline below its max_size (no eviction)"]
 TRUSTED = ["Model/Lazy.v mirrors pipefunc/lazy.py and the lazy branches of _base.py by hand; tie = per-run "
            "differential execution", "harness/symfuncs.py (structural bodies, call log)"]
 
@@ -200,6 +204,11 @@ def _seq_cases(rng, pd, n):
             else:
                 o = rng.choice(outs)
             kw = [[n_, "v_" + n_] for n_ in roots_of[o]]
+            if rng.random() < 0.15:                  # an argument combination with supplied intermediates
+                try:
+                    kw = [[n_, "v_" + n_] for n_ in rng.choice(sorted(pl.arg_combinations(o)))]
+                except Exception:  # noqa: BLE001
+                    pass
             r = rng.random()
             if r < 0.1 and kw:
                 kw[rng.randrange(len(kw))][1] = "other"          # another value: no sharing for what depends on it
